@@ -105,7 +105,18 @@ def gen_scenario(seed, i):
                 out.append(["restart"] if restart else ["evict", "p1"])
             out.append(op)
         ops = out
-    sc = {"id": f"tm-{seed}-{i}", "config": cfg, "models": [w], "ops": ops}
+    models = [w]
+    if i % 6 == 1:
+        # the timed process is not alone in the cache: kept processes that have already finished, and others that wait without any rule
+        cfg["keep"] = True
+        models.append({"id": "mq", "steps": [{"id": "q1", "acts": [{"id": "qa", "uses": gen.MSG, "key": "kq"}]}]})
+        models.append({"id": "mw", "steps": [{"id": "w1", "acts": [{"id": "wa", "uses": gen.IRQ, "key": "kw"}]}]})
+        pre = [["deploy", 1], ["deploy", 2]]
+        for q in range(rng.range(4, 9)):
+            pre.append(["start", "mq" if q % 3 else "mw", {"pid": f"q{q}"}])
+        pre.append(["runall"])
+        ops = ops[:1] + pre + ops[1:]
+    sc = {"id": f"tm-{seed}-{i}", "config": cfg, "models": models, "ops": ops}
     return sc, {"timed_nid": "a1" if timed_kind == "act" else "s1", "rules": [[on, secs] for on, secs in picks], "tsteps": tsteps}
 
 
@@ -147,7 +158,7 @@ def run(ctx):
                     pass
             # start time of the timed task: clock when it was created (its first `ready` write)
             for o in st["obs"]:
-                if o.get("k") == "new" and o.get("nid") == meta["timed_nid"] and start is None:
+                if o.get("k") == "new" and o.get("pid") == "p1" and o.get("nid") == meta["timed_nid"] and start is None:
                     start = now
             if op[0] == "tick" and start is not None:      # ticks before the timed task exists are not its business
                 events.append((i, ["tick", now]))
@@ -159,10 +170,10 @@ def run(ctx):
             timed_tids = set()
             for st2 in res.get("steps", []):
                 for o in st2["obs"]:
-                    if o.get("k") == "new" and o.get("nid") == meta["timed_nid"]:
+                    if o.get("k") == "new" and o.get("pid") == "p1" and o.get("nid") == meta["timed_nid"]:
                         timed_tids.add(o.get("tid"))
             for o in st["obs"]:
-                if (o.get("k") == "tr" and not closed and o.get("tid") in timed_tids
+                if (o.get("k") == "tr" and o.get("pid") == "p1" and not closed and o.get("tid") in timed_tids
                         and o.get("new") in ("completed", "skipped", "submitted", "aborted", "error", "removed", "backed", "cancelled")):
                     closed = True
                     events.append((i, ["close"]))
@@ -177,7 +188,7 @@ def run(ctx):
         fired = {i: [] for i in tick_ops}
         stray = []
         for i in sorted(by_op):
-            keys = [meta["tsteps"][o["nid"]] for o in by_op[i] if o.get("k") == "new" and o.get("nid") in meta["tsteps"]]
+            keys = [meta["tsteps"][o["nid"]] for o in by_op[i] if o.get("k") == "new" and o.get("pid") == "p1" and o.get("nid") in meta["tsteps"]]
             if not keys:
                 continue
             prev = [t for t in tick_ops if t <= i]
